@@ -57,19 +57,14 @@ func jmpToOriginFunctionValue(from, to uintptr) (value []byte) {
 
 // relative 判断两个指针间隔是否可以用相对地址表示
 func relative(from uintptr, to uintptr) bool {
-	delta := int64(from - to)
+	// the rel32 field of the 5-byte jump holds to-(from+5): that is the value which has to fit in int32
+	delta := int64(to - from - 5)
 	if unsafe.Sizeof(uintptr(0)) == unsafe.Sizeof(int32(0)) {
-		delta = int64(int32(from - to))
+		delta = int64(int32(to - from - 5))
 	}
 
 	// 跨度大于2G 时
-	relative := delta <= 0x7fffffff
-
-	if delta < 0 {
-		delta = -delta
-		relative = delta <= 0x80000000
-	}
-	return relative
+	return delta >= -0x80000000 && delta <= 0x7fffffff
 }
 
 // checkAlreadyPatch 检测是否已经 patch
